@@ -13,6 +13,9 @@ def bases():
     good = [S.person(), S.document(), S.opt3(), S.boolopt(), S.reqnest()]
     F = S.F
     good += [S.Shape("b_flat", [F("A", "req", "int32"), F("B", "opt", "string"), F("C", "rep", "float64"), F("D", "req", "bool")], desc="flat"),
+             S.Shape("b_reuse_p", [F("G", "opt", [F("X", "req", "int32"), F("Y", "opt", "string")]), F("X", "req", "int32"), F("Y", "opt", "string"), F("Z", "req", "int64")], desc="a run of root fields equal to the struct of an earlier pointer field"),
+             S.Shape("b_reuse_s", [F("A", "req", "bool"), F("L", "rep", [F("X", "req", "int32"), F("Y", "opt", "string")]), F("X", "req", "int32"), F("Y", "opt", "string")], desc="a run of root fields equal to the struct of an earlier slice field"),
+             S.Shape("b_reuse_v", [F("X", "req", "float64"), F("Y", "rep", "int64"), F("G", "req", [F("X", "req", "float64"), F("Y", "rep", "int64")]), F("Z", "opt", "uint32")], desc="a run of root fields equal to the struct of a later value field"),
              S.Shape("b_nest", [F("A", "req", "int64"), F("G", "opt", [F("X", "req", "int32"), F("Y", "opt", "string")]), F("Z", "opt", "uint32")], desc="one optional group")]
     return good
 
@@ -37,12 +40,15 @@ def variants(rng, base, tier):
                     continue
                 kind = "embed-root" if tname == "Root" else "embed-in-group"
                 out.append(("embed:%s[%d:%d]" % (tname, i, i + k), G.embed(decls, tname, "Emb", i, k), kind))
+                reuse = G.embed_reuse(decls, tname, i, k)
+                if reuse is not None:      # the embedded struct is a type the file already declares and uses as a named field
+                    out.append(("embed-reuse:%s[%d:%d]" % (tname, i, i + k), reuse, "embed-reuse"))
     if tier == "quick":
-        keep = [v for v in out if v[2] != "excluded"]
+        keep = [v for v in out if v[2] not in ("excluded", "embed-reuse")]
         ex = [v for v in out if v[2] == "excluded"]
         rng.shuffle(ex)
         keep = rng.sample(keep, min(len(keep), 10))
-        out = ex[:22] + keep
+        out = ex[:22] + keep + [v for v in out if v[2] == "embed-reuse"]
     return decls, out
 
 
@@ -123,6 +129,7 @@ def run(chk, st, tier):
             runtime.append((b, label, d, kind))
     # C. the variants as programs: same bytes for the same values, excluded fields stay zero
     rng.shuffle(runtime)
+    runtime.sort(key=lambda v: v[3] != "embed-reuse")      # the few reuse variants always run
     chosen = runtime[:40 if tier == "quick" else 400]
     shapes = []
     for b, decls, vs in plan:
@@ -192,8 +199,8 @@ def run(chk, st, tier):
     chk.coverage["model_vs_impl_mismatches"] = mism
     chk.coverage["input_distribution"] = dist
     chk.sample({"base": plan[0][0].name, "variant": plan[0][2][0][0], "go": G.go_source("p", plan[0][2][0][1])[:300]})
-    chk.coverage["rule"] = ("7 base structs x insertions of excluded fields (unexported, underscore, anonymous struct with exported inner fields, dash-tagged struct/func/map/chan/pointer/slice/interface) at start/middle/end of every declaration, "
-                            "and replacements of runs of fields by an embedded struct (every run at the root; whole/first field in nested groups). Per variant: column tree of the real parse.Fields = base's tree = model's tree; "
+    chk.coverage["rule"] = ("10 base structs x insertions of excluded fields (unexported, underscore, anonymous struct with exported inner fields, dash-tagged struct/func/map/chan/pointer/slice/interface) at start/middle/end of every declaration, "
+                            "and replacements of runs of fields by an embedded struct (every run at the root; whole/first field in nested groups; also by an already declared struct that an earlier or later named field uses). Per variant: column tree of the real parse.Fields = base's tree = model's tree; "
                             "parquetgen output byte-identical to the base's; for a sample the variant is compiled and run with the excluded fields filled with data: files byte-identical, excluded fields zero after reading. distinct = distinct variants.")
     chk.coverage["explanation"] = "decorate_inert / embed_inline (coq/props/C14.v) prove the column tree unchanged for every insertion/replacement in the parse model."
     chk.assumptions += ['parquetgen output is a function of the parse tree only (gen.FromStruct builds its template input from parse.Fields result, type and package names)']
